@@ -501,6 +501,32 @@ def _nontrivial(rec):
     return False
 
 
+SUITE_FILES = ['tests/test_mesh.py', 'tests/test_examples.py', 'tests/test_assembly.py', 'tests/test_basis.py']
+
+
+def from_suite(ctx):
+    """thorough tier: the repository's own tests as drivers (harness/suite_io.py records every export / import they
+    make on small meshes); the recorded events are judged by the same trace specification."""
+    from .. import suite
+    rec = suite.record(ctx, files=SUITE_FILES, plugins=['harness.suite_io'])
+    evs = rec.get('c17', [])
+    scs = [{'id': f'C17-suite-{k}', 'recipe': {'driver': 'suite', 'test': e.get('test', '')},
+            'tags': {'family': 'suite'}, 'events': [e]} for k, e in enumerate(evs)]
+    ctx.validate('TraceC17', scs, jvms=8)
+    kinds = {}
+    for e in evs:
+        k = '%s:%s' % (e['a'], e['fmt'])
+        kinds[k] = kinds.get(k, 0) + 1
+    skipped = {}
+    for d in rec.get('io_skipped', []):
+        for k, v in d.items():
+            if k.startswith('c17:'):
+                skipped[k] = skipped.get(k, 0) + v
+    ctx.notes['scenarios_from_repository_tests'] = len(scs)
+    ctx.notes['suite_events_by_kind'] = kinds
+    ctx.notes['suite_skipped'] = skipped
+
+
 def _machinery_guard(ctx):
     """an event TraceC17 cannot read is a defect of the harness (exit 2), never a verdict on the library."""
     for f in ctx.failures:
@@ -516,6 +542,8 @@ def run(ctx):
     recs += generate(ctx.tier, ctx.seed)
     scs = [scenario(f'C17-{k}', r) for k, r in enumerate(recs)]
     ctx.validate('TraceC17', scs, jvms=8)
+    if ctx.tier == 'thorough':
+        from_suite(ctx)
     _machinery_guard(ctx)
     ctx.notes['history_events'] = sum(1 for s in scs for e in s['events'] if e.get('step') == 2)
     keys = {json.dumps([r['cls'], r.get('order', 1), r['p'], r['t'], r.get('bnd'), r.get('bndv'), r.get('sub')],
@@ -544,6 +572,11 @@ def replay(ctx, doc):
     sc = doc['scenario']
     if sc.get('recipe', {}).get('driver') == 'model':
         ctx.model_must_hold('MC_C17', sc['recipe']['cfg'], env={'OUT_FILE': '', 'TIER': ctx.tier}, timeout=1500)
+        return ctx.finish(rule=RULE)
+    if sc.get('recipe', {}).get('driver') == 'suite':
+        # recorded from the repository's tests: the recorded event is re-validated
+        ctx.validate('TraceC17', [sc], jvms=8)
+        _machinery_guard(ctx)
         return ctx.finish(rule=RULE)
     sc2 = scenario(sc['id'], sc['recipe'])
     ctx.validate('TraceC17', [sc2], jvms=8)
